@@ -14,7 +14,8 @@ RULE = (
     "names whose kind varies x 4 element names) in canonical or foreign XML spelling; some messages are verbatim repeats of earlier "
     "ones, some updates are aimed at an earlier definition (same device, property, kind, subset of its elements), and BLOB elements "
     "may declare a size that is that of uncompressed data (.z) or contradicts the payload (then the client may take it or leave it, "
-    "but must not choke on it). 'direct': each message is parsed and handed to "
+    "but must not choke on it); in 'direct' the application also writes (assign + submit) at arbitrary positions, which must leave the "
+    "mirror untouched. 'direct': each message is parsed and handed to "
     "BaseClient.process_message, the client's public view is compared with the reference interpreter (harness/refclient.py) after "
     "EVERY message; 'stream': the same streams as fragmented bytes through the real client ConnectionHandler.wait_for_messages "
     "task on fake streams (control mode and BLOB mode), compared at the end, the receive task must still be alive and a sentinel "
